@@ -212,6 +212,9 @@ func (r *Reader) initFields() error {
 	var lastRegEnt *TOCEntry
 	var chunkTopIndex int
 	for i, ent := range r.toc.Entries {
+		if ent == nil {
+			return fmt.Errorf("invalid TOC: entry %d is null", i)
+		}
 		ent.Name = cleanEntryName(ent.Name)
 		switch ent.Type {
 		case "reg", "chunk":
